@@ -36,7 +36,7 @@ func locksReleased(c *Ctx, pkgs ...string) {
 		if !hasLock {
 			continue
 		}
-		ls := an.Locksets(fn)
+		ls := an.MayLocksets(fn) // held on at least one path: a branch that locks and forgets to unlock joins a branch that never locked
 		// deferred unlocks (direct, or inside a deferred function literal)
 		type du struct {
 			in  ssa.Instruction
